@@ -68,7 +68,7 @@ func ctxConstants() []*Opnd {
 			mkCoef(false, mustInt(strings.Repeat("9", 29)), -29, 29, 0),                        // 11 1-1e-29
 			mkInt64(-1, 0, 1, 0),       // 12 -1
 			mkInt64(10017225, 0, 9, 0), // 13 3165²: the root is an exact tie at 3 digits
-			mkWords(false, []uint64{0, 3, 0, 3 * (BW / 10)}, 1, 0, ToNearestAway),                      // 14 3.000…03 in a 4-word mantissa with a trailing zero word: ÷(−1.5) = −2.000…02
+			mkWords(false, []uint64{0, 3, 0, 3 * (BW / 10)}, 1, 0, ToNearestAway), // 14 3.000…03 in a 4-word mantissa with a trailing zero word: ÷(−1.5) = −2.000…02
 		}
 	}
 	return ctxConsts
@@ -598,6 +598,93 @@ func ctxLayers(tier string) []Layer {
 						}
 						if o := Observe(z2); pv == nil && (uint(o.Prec) != want || o.Mode != m) {
 							c.Fail(key+" Add attributes", fmt.Sprintf("result has precision %d mode %s", o.Prec, modeName(o.Mode)))
+						}
+					}
+				}
+			},
+		})
+	}
+	// A2: operands long enough for the recursive division and Karatsuba paths, into fresh receivers and
+	// into receivers that held long values before (the context must deliver the correctly rounded
+	// result whatever the receiver was)
+	{
+		type pair struct {
+			name string
+			x, y *Opnd
+		}
+		var ps []pair
+		build := func() {
+			if ps != nil {
+				return
+			}
+			for _, n := range []int{100, 101, 128} {
+				yw := make([]uint64, n)
+				for i := range yw {
+					yw[i] = (uint64(i)*7777777777777777 + 1234567890123456789) % BW
+				}
+				yw[n-1] = BW/2 + 12345
+				y := mkWords(false, yw, 0, 0, 0)
+				for _, k := range []int64{1, 3, 7} {
+					for _, d := range []int64{0, 1, 5} {
+						// x = k·y − d units in y's last place
+						cx := new(big.Int).Mul(y.V.Coef, big.NewInt(k))
+						cx.Sub(cx, big.NewInt(d))
+						x := mkCoef(d%2 == 1, cx, y.V.E10, 0, 0)
+						ps = append(ps, pair{fmt.Sprintf("x=%d·y−%d, y %d words", k, d, n), x, y})
+					}
+				}
+				// quotient with a block of nines in the middle: x = q·y, q = 10^a − 10^b + 3
+				for _, ab := range [][2]int64{{5900, 1900}, {7700, 2800}} {
+					q := new(big.Int).Sub(p10(ab[0]), p10(ab[1]))
+					q.Add(q, big.NewInt(3))
+					x := mkCoef(false, new(big.Int).Mul(q, y.V.Coef), y.V.E10, 0, 0)
+					ps = append(ps, pair{fmt.Sprintf("x=(10^%d−10^%d+3)·y, y %d words", ab[0], ab[1], n), x, y})
+				}
+			}
+		}
+		precs := []uint{40, 600, 1300, 2500, 4800, 8000}
+		layers = append(layers, Layer{
+			Name:   "A2-long-operands",
+			Units:  33,
+			Bounds: fmt.Sprintf("Context.Quo / Mul / Sub(x, y) with y of 100, 101, 128 words and x = k·y − d (k ∈ {1,3,7}, d ∈ {0,1,5}) or x = (10^a − 10^b + 3)·y (quotient with 4000 / 4900 nines); context precision %v × modes Even/ToZero/AwayFromZero; receiver fresh / held 1500 nines / held 7000 digits of 7", precs),
+			Run: func(c *Ctx, u int) {
+				build()
+				p := ps[u]
+				for _, cp := range precs {
+					for _, m := range []uint8{ToNearestEven, ToZero, AwayFromZero} {
+						for rk := 0; rk < 3; rk++ {
+							if c.Skip() {
+								continue
+							}
+							cx := dctx.New(cp, decimal.RoundingMode(m))
+							mk := func() *Dec {
+								z := new(Dec)
+								switch rk {
+								case 1:
+									z.SetPrec(1500).SetString(strings.Repeat("9", 1500))
+								case 2:
+									z.SetPrec(7000).SetString(strings.Repeat("7", 7000) + "e-5")
+								}
+								return z
+							}
+							x, y := p.x.Build(), p.y.Build()
+							key := fmt.Sprintf("Context(prec %d, %s) %s receiver-kind=%d", cp, modeName(m), p.name, rk)
+							c.NonTrivial()
+							z := mk()
+							pv, _ := protect(func() { cx.Quo(z, x, y) })
+							if msg := judgeFull(Observe(z), pv, false, ModelQuo(p.x.V, p.y.V, uint32(cp), m), true); msg != "" {
+								c.Fail(key+" Quo", msg)
+							}
+							z = mk()
+							pv, _ = protect(func() { cx.Mul(z, x, y) })
+							if msg := judgeFull(Observe(z), pv, false, ModelMul(p.x.V, p.y.V, uint32(cp), m), true); msg != "" {
+								c.Fail(key+" Mul", msg)
+							}
+							z = mk()
+							pv, _ = protect(func() { cx.Sub(z, x, y) })
+							if msg := judgeFull(Observe(z), pv, false, ModelSub(p.x.V, p.y.V, uint32(cp), m), true); msg != "" {
+								c.Fail(key+" Sub", msg)
+							}
 						}
 					}
 				}
